@@ -23,8 +23,8 @@ def pcHoldS : PC → Nat → Nat
   | .tl0 _ _, _ | .tl1 _ _, _ | .tlBack _ _, _ | .tuStart _, _ | .tu1 _, _ | .tu0 _, _ | .addLock _ _ _, _ | .numInc _ _ _, _ | .relDec _ _ _, _ | .retire _, _ | .setUnf _ _, _ | .loadNum, _
   | .addBody _ _ _, _ | .addUnlock _ _ _, _ | .popLock _ _, _ | .popInit _, _ | .popScan _ _, _
   | .popRemove _ _ _, _ | .popUnlock _ _, _ | .qsz _, _ | .cInc _, _ | .cDec _, _ | .cPostInc _, _
-  | .cPreAdd _ _, _ | .cPostAdd _ _, _ | .cPreSub _ _, _ | .cLoad _, _ | .lfLoad _ _, _
-  | .lfCas _ _ _, _ | .cMax _ _, _ | .cMaxCas _ _ _, _ | .cLoadMx _, _ => 0
+  | .cPreAdd _ _, _ | .cPostAdd _ _, _ | .cPreSub _ _, _ | .cLoad _, _ | .cAwait _ _, _ | .lfLoad _ _, _
+  | .lfCas _ _ _, _ | .cMax _ _, _ | .cMaxCas _ _ _, _ | .cLoadMx _, _ | .loadTaken, _ => 0
 
 /-- how many times thread `th` holds slot `i`: in the caller's hands, or between the
 successful CAS and the return of `get`, or between the call of `free` and its CAS -/
